@@ -42,6 +42,20 @@ pub fn inflate_raw(body: &[u8], limit: usize) -> Result<Vec<u8>, String> {
     Ok(out)
 }
 
+/// Inflate a raw deflate stream the lenient way zlib does: stop at the end-of-stream marker and
+/// ignore whatever follows. Returns the number of bytes produced, or `None` if the stream is
+/// broken or produces more than `limit` bytes.
+pub fn inflate_len_lenient(body: &[u8], limit: usize) -> Option<usize> {
+    let mut out = vec![0u8; limit + 1];
+    let mut d = DecompressorOxide::new();
+    let flags = inflate_flags::TINFL_FLAG_USING_NON_WRAPPING_OUTPUT_BUF;
+    let (status, _in_used, out_len) = decompress(&mut d, body, &mut out, 0, flags);
+    match status {
+        TINFLStatus::Done if out_len <= limit => Some(out_len),
+        _ => None,
+    }
+}
+
 /// Parse one member starting at `off`. Checks everything the BGZF section of the SAM
 /// specification requires of a block.
 pub fn parse_member(bytes: &[u8], off: usize) -> Result<(usize, Vec<u8>), String> {
